@@ -793,3 +793,86 @@ func (c *Ctx) queueHandsOutOnlyRemovedEntries() {
 	}
 	c.R.Count("queue methods handing out entries", n)
 }
+
+const ruleL9 = "L9-no-wait-on-a-channel-that-is-never-created"
+
+// noWaitOnNilChannels: L9. A blocking channel operation (a select without default, a plain receive or send) on a
+// channel held in a struct field that no function of the library ever stores a created channel into waits on nil: that
+// case never fires. A select that counts on it as its way out (`case <-svc.done` beside the case it really waits for)
+// blocks for ever once the other case cannot proceed - on the delivery path that is a publisher stuck behind a
+// departed subscriber, a teardown that never finishes, a Server.Close that hangs.
+func (c *Ctx) noWaitOnNilChannels() {
+	c.R.Rule(ruleL9, "no blocking select, receive or send of the library waits on a channel field that is never assigned a created channel anywhere in the library (a nil channel: the case can never fire, so it is no way out).")
+	created := map[string]bool{}
+	for _, fn := range globalStoreFuncs {
+		for _, b := range fn.Blocks {
+			for _, in := range b.Instrs {
+				st, ok := in.(*ssa.Store)
+				if !ok {
+					continue
+				}
+				if _, isChan := st.Val.Type().Underlying().(*types.Chan); !isChan {
+					continue
+				}
+				if k, isK := st.Val.(*ssa.Const); isK && k.IsNil() {
+					continue
+				}
+				if cl := ir.PathOf(st.Addr).Class(); cl != "" {
+					created[cl] = true
+				}
+			}
+		}
+	}
+	fieldOf := func(v ssa.Value) string {
+		u, ok := ir.SeeThrough(v).(*ssa.UnOp)
+		if !ok || u.Op != token.MUL {
+			return ""
+		}
+		if _, isFA := u.X.(*ssa.FieldAddr); !isFA {
+			return ""
+		}
+		return ir.PathOf(u.X).Class()
+	}
+	n := 0
+	for _, fn := range c.P.Funcs {
+		if fn.Blocks == nil {
+			continue
+		}
+		k := 0
+		for _, b := range fn.Blocks {
+			for _, in := range b.Instrs {
+				var chans []ssa.Value
+				switch x := in.(type) {
+				case *ssa.Select:
+					if !x.Blocking {
+						continue
+					}
+					for _, st := range x.States {
+						chans = append(chans, st.Chan)
+					}
+				case *ssa.UnOp:
+					if x.Op != token.ARROW {
+						continue
+					}
+					chans = append(chans, x.X)
+				case *ssa.Send:
+					chans = append(chans, x.Chan)
+				default:
+					continue
+				}
+				n++
+				k++
+				var dead []string
+				for _, ch := range chans {
+					if f := fieldOf(ch); f != "" && !created[f] {
+						dead = append(dead, f)
+					}
+				}
+				c.R.Check(len(dead) == 0, ruleL9, fmt.Sprintf("%s:blocking-channel-op#%d", fname(fn), k), c.P.InstrPos(in),
+					"every channel waited on is created somewhere in the library",
+					"this blocking channel operation waits on "+joinStr(dead, ", ")+", a field no function of the library ever stores a created channel into: that case never fires - if it is the way out of the wait (teardown closing the channel), the wait has none and the goroutine (a publisher delivering to this connection, the teardown behind it) blocks for ever")
+			}
+		}
+	}
+	c.R.Count("blocking channel operations in the library", n)
+}
